@@ -33,6 +33,12 @@ Definition f_deform := 11.
 Definition f_fl1_ctc := 12.
 Definition f_fl2_ctc := 13.
 Definition f_fl3_ctc := 14.
+Definition f_ml_a := 15.
+Definition f_ml_b := 16.
+Definition f_image := 17.
+Definition f_image_bg := 18.
+Definition f_mask := 19.
+Definition f_bright_bc_avg := 20.
 Definition k_lut := 1.
 Definition k_medium := 2.
 Definition k_temperature := 3.
@@ -269,14 +275,13 @@ Fixpoint req_item (ex : list input) (items : list item) (u : input)
 
 Definition from_items (r : recipe) (items : list item) (u : input)
   : option (option val) :=
-  match u with
-  | IData f => match feat_item (r_feats r) items f with
-               | Some v => Some v
-               | None => req_item (r_extra r) items u
-               end
-  | IPres f => if memZ f (r_feats r) then Some (Some (Raw 0))
-               else req_item (r_extra r) items u
-  | ICfg k => cfg_item items k
+  match (match u with
+         | IData f => feat_item (r_feats r) items f
+         | IPres f => if memZ f (r_feats r) then Some (Some (Raw 0)) else None
+         | ICfg k => cfg_item items k
+         end) with
+  | Some v => Some v
+  | None => req_item (r_extra r) items u
   end.
 
 (* inside the method a declared ingredient has the value that was hashed
@@ -322,7 +327,11 @@ Definition ctc_missing (fuel : nat) (reg : list recipe) (st : state) : bool :=
   && negb (forallb (fun k => has k (b_cfg (s_base st))) k_ct).
 
 (* ---- reading a feature (RTDCBase.__getitem__) ---- *)
-Definition AF : nat := 24.     (* fuel for availability questions *)
+(* fuel for availability questions: [SF] for is_available of the recipes
+   (available_features), [AF] = SF + 1 for __contains__, which asks
+   is_available of every instance *)
+Definition SF : nat := 23.
+Definition AF : nat := S SF.
 
 Definition store (outs : list Z) (items : list item) (m : Z)
   (view : list (option val)) (c : list (Z * (list item * val)))
@@ -351,7 +360,7 @@ Fixpoint read (fuel : nat) (reg : list recipe) (st : state) (f : Z)
     match feat_raw (s_base st) f with
     | Some i => (st, Ok (Raw i))
     | None =>
-      match select AF reg st f with
+      match select SF reg st f with
       | None => (st, Err e_key)
       | Some r =>
         (* AncillaryFeature.hash: ds[col] for every required feature *)
@@ -495,7 +504,7 @@ Definition bools6 : list (bool * bool * bool * bool * bool * bool) :=
   flat_map (fun e => map (fun f => (a, b, c, d, e, f)) bs) bs) bs) bs) bs) bs.
 
 Definition sel_scenario (reg : list recipe) (b : base) : Z :=
-  match select AF reg (fresh b) f_emodulus with
+  match select SF reg (fresh b) f_emodulus with
   | Some r => r_scen r
   | None => 0
   end.
@@ -518,12 +527,15 @@ Definition emod_row (reg : list recipe)
 Definition declared (r : recipe) : list input :=
   map IData (r_feats r) ++ map ICfg (r_keys r) ++ r_extra r.
 
+(* the ingredient is part of the cache key: a required feature, a required
+   configuration key, or something the hashed req_func result is made of *)
 Definition covered (r : recipe) (u : input) : bool :=
-  mem_input u (declared r)
-  || match u with
-     | IPres f => mem_input (IData f) (declared r)
-     | _ => false
-     end.
+  match u with
+  | IData f => memZ f (r_feats r)
+  | IPres f => memZ f (r_feats r)
+  | ICfg k => memZ k (r_keys r)
+  end
+  || mem_input u (r_extra r).
 
 Definition complete (r : recipe) : bool :=
   forallb (covered r) (r_uses r) && (r_mkind r =? 0).
@@ -550,7 +562,5 @@ Definition collide_ok (reg : list recipe) : bool :=
 (* recipes that the known findings say read undeclared ingredients *)
 Definition known_incomplete (r : recipe) : bool :=
   (r_mkind r =? 1)                                   (* emodulus *)
-  || ((r_mkind r =? 2) && (Z.of_nat (length (r_feats r)) =? 2))
+  || ((r_mkind r =? 2) && (Z.of_nat (length (r_feats r)) =? 2)).
                                                      (* 2-channel fl*_max_ctc *)
-  || (r_name r =? f_ml_class)
-  || mem_input (IData f_bg_off) (r_uses r).          (* bright_bc_*, bright_perc_* *)
